@@ -42,7 +42,7 @@ CLAIMS = {
         "common-ancestor / distance, root / rootedness and traversal queries never reach a panic outcome for ANY arena and ANY ids (removed, out of range, different components). The "
         "property itself is evaluated on the real crate on every run: the cross product of every public function of Tree (all argument classes, nine comparison partners), DistanceMatrix "
         "(sizes 0-3, non-finite matrices) and the generators (n = 0..3 in a watchdogged child process) with sixteen classes of degenerate value plus trees degenerated by random edit "
-        "histories, each call isolated by catch_unwind; outcome classes of the calls that have a model counterpart are compared with the model.",
+        "histories, each call isolated by catch_unwind; outcome classes of the calls that have a model counterpart are compared with the model. Also proved (wrappers of C03, C08, C14, C15, C18): the strict Phylip parser, the fast distance matrix on any well-formed forest, the UPGMA loop, every editing operation with arbitrary arguments and the CLI collapse loop never reach a panic / fuel outcome. Also executed: numeric-corner subjects (NaN, infinities, subnormal, huge lengths), stale leaf index with unchanged leaf count, unlabelled matrices, file functions, print functions, neighbor_joining (a todo!() stub: known finding), and after EVERY mutating call — whether it succeeded or returned an error — a follow-up battery of 22 calls on the object it left behind.",
    note=NOTE + ARQ + "Cannot be exhibited by the model: stack exhaustion on extremely deep trees, allocation failure for absurd declared sizes. Cyclic arenas (only constructible by assigning public fields by hand) are outside 'constructible through the public API'.",
    technique="Lean 4 totality proofs (no reachable panic / fuel adequacy) per function family + isolated cross-product execution of the public API on degenerate values", ref="5 C20"),
  "C19": dict(
@@ -51,7 +51,7 @@ CLAIMS = {
         "node's own wedge (nested; the root's children fill the full turn); for any direction on the unit circle the drawn segment has squared Euclidean length equal to the squared "
         "branch length; rescaling commutes with the construction; a missing length is refused. PARTIAL by nature: cos, sin and rounding are modelled, not verified — the harness applies "
         "the real cos/sin to the model's exact angles and compares every coordinate with the crate's within 1e-9 of the drawing's extent, and checks on the real layout: segment starts "
-        "at the parent's point, ends at the node's point, Euclidean length = branch length, direction = bisector of the wedge computed from leaf counts, labels, rescale.",
+        "at the parent's point, ends at the node's point, Euclidean length = branch length, direction = bisector of the wedge computed from leaf counts, labels, rescale. Also on the real code: the drawing of the tree rescaled by 2^-70, 2^-300, 2^100 must be the drawing multiplied by that factor exactly; six arena layouts incl. bottom-up.",
    note=NOTE + "Modelled, not verified: f64 cos/sin/atan2 and rounding; the angle is a rational fraction of a turn in the model.",
    technique="Lean 4 proofs on an exact-angle layout model (wedge partition, one segment per node, length identity on the unit circle) + coordinate-level differential execution within 1e-9", ref="5 C19"),
  "C17": dict(
@@ -61,7 +61,7 @@ CLAIMS = {
         "slot is a tip iff it has no children and every other slot has exactly two distinct children. Tied to the crate through the seedable-RNG hook: the choices are read back from "
         "the real result and the model must rebuild the identical tree and tip numbering; the caterpillar generator (deterministic) is compared exactly. Oracles on the real result: "
         "arena invariant, rooted binary, n leaves, 2n-1 nodes, unique Tip_i names on tips only, lengths all present and inside the distribution's support / all absent, comb shape "
-        "and Colless = (n-1)(n-2)/2 for the caterpillar.",
+        "and Colless = (n-1)(n-2)/2 for the caterpillar. Also: the distributions are visited in a rotating order that never starts with the first enum variant; extreme raw draws injected through hook H4 drive the uniform sampler to both ends of its support; requests of 40 000 (thorough: up to 150 000) leaves (oracles only).",
    note=NOTE + "Modelled, not verified: rand / rand_distr (theorems hold for every oracle; the supports Uniform[0.002,1), Exp(0.15) >= 0, Gamma(4,1) > 0 are checked on the drawn values only).",
    technique="Lean 4 invariant proofs over all oracles for the generator loops + oracle read-back differential execution through the seedable-RNG hook", ref="5 C17"),
  "C15": dict(
@@ -144,7 +144,7 @@ CLAIMS = {
         "any size: the root path exists, is unique and is what the query returns (fuel adequacy by pigeonhole); for two distinct nodes of the same tree the reported "
         "ancestor is an ancestor of both and every common ancestor is an ancestor of it (deepest), the edge count is the length of the two legs, the length is the sum "
         "over both legs when all are present and absent otherwise; symmetric; zero for a node with itself; dead ids are errors. Tied to the crate on every ordered pair of "
-        "node ids (incl. removed and out-of-range) of every shape up to a node bound with three length masks and random larger trees in four arena layouts; brute-force ancestor oracle.",
+        "node ids (incl. removed and out-of-range) of every shape up to a node bound with three length masks and random larger trees in four arena layouts; brute-force ancestor oracle. Also on the real code: trees with NaN / +inf / -inf / -0 lengths (a NaN or infinite length is a PRESENT length: Some(sum), None exactly when a length is missing), six arena layouts incl. bottom-up, objects with a past.",
    note=NOTE + ARQ, technique="Lean 4 proof of the deepest-common-ancestor theorem on the arena model + all-pairs differential execution", ref="5 C09"),
  "C10": dict(
    text="Kernel-checked refinement theorems through a layout-independent abstraction (slot i represents rose tree t): pre-order = node then children's pre-orders in "
@@ -177,7 +177,7 @@ CLAIMS = {
         "count of the two split sets or that count plus two, the latter only when both roots have two children and the root split sets differ; equals the count "
         "whenever a root is not a two-child root; symmetric; zero for identical split sets; equal to the report's value; normalised value is the quotient by the "
         "total and the count never exceeds the total; different leaf indices are rejected. Tied to the crate on every ordered pair of leaf-labelled shapes up to a "
-        "bound, random pairs and pairs with different leaf sets; oracles: symmetry, renaming, reordering, report agreement, brute-force count, rejection.",
+        "bound, random pairs and pairs with different leaf sets; oracles: symmetry, renaming, reordering, report agreement, brute-force count, rejection. Also on the real code: the same objects compared again after an edit and the documented reset (leaf names swapped; growth below an internal node after distance matrices and comparisons), look-alike labels (quoted / case / suffix variants are distinct taxa), root not in slot 0.",
    note=NOTE + EXACT + "rf_norm with zero splits is the IEEE quotient 0/0 (NaN), pinned by the correspondence.", technique="Lean 4 proofs about the RF model + exhaustive ordered-pair differential execution", ref="5 C06"),
  "C07": dict(
    text="Kernel-checked theorems on the model of weighted_robinson_foulds / khuner_felsenstein (squared) / compare_topologies / compare_branch_lengths: both "
@@ -185,14 +185,14 @@ CLAIMS = {
         "one split with summed length and a missing length poisons the sum; a missing length yields MissingBranchLengths from all three entry points; the report "
         "carries exactly these values; common rescaling by k multiplies wRF by |k| and KF squared by k squared; the branch listing is exactly only-first / only-second / "
         "common with those lengths. Tied to the crate on exhaustive and random pairs with exact dyadic lengths (exact equality, bit-equal sqrt); oracles: brute-force "
-        "sums, symmetry, scaling, reordering, report agreement, missing-length error. Symmetry of both sums (for split maps without repeated splits, which the partition map guarantees) is a theorem.",
+        "sums, symmetry, scaling, reordering, report agreement, missing-length error. Symmetry of both sums (for split maps without repeated splits, which the partition map guarantees) is a theorem. Also on the real code: common rescaling by 2^-70, 2^-300, 2^200 compared EXACTLY (scaling by a power of two is exact, sqrt correctly rounded), the same objects after rescale + reset, look-alike labels.",
    note=NOTE + EXACT, technique="Lean 4 proofs about the weighted-distance model + exact differential execution on dyadic lengths", ref="5 C07"),
  "C01": dict(
    text="Kernel-checked theorem, by structural induction over all trees and all codecs satisfying three laws, that parsing the written form "
         "of any tree in the property's domain yields an arena representing exactly that tree (shape, child order, names, comments, length values), "
         "for every arena layout (writer refinement theorem over a layout-independent abstraction), and that writing the re-parsed arena reproduces "
         "the text. The character-level parser model and the arena writer model are tied to the crate by comparing to_newick text and complete "
-        "from_newick arenas (length bit patterns) on generated trees in four arena layouts, plus a write/parse/compare/write oracle on the real code.",
+        "from_newick arenas (length bit patterns) on generated trees in four arena layouts, plus a write/parse/compare/write oracle on the real code. Also: seven arena layouts incl. the agglomerative bottom-up build (slot 0 a tip, parents created after their children), NaN lengths (all NaNs identified), objects queried before they are written, and a second write of the same object after an in-place payload edit through each public mutable accessor.",
    note=NOTE + FLOATTXT, technique="Lean 4 structural-induction proof of the round trip + differential execution of parser/writer models against the crate", ref="5 C01"),
  "C02": dict(
    text="Kernel-checked theorems over ALL character lists (quotes and comments anywhere): the parser model terminates, never takes a panic branch, and every returned arena is one "
@@ -211,7 +211,7 @@ CLAIMS = {
    text="Kernel-checked theorems for all nine formats and all trees: the format's text is the full-format text of the tree with exactly the omitted "
         "fields erased (strip), the arena writer produces it on every arena layout, stripping stays inside the round-trip domain, and parsing the text "
         "yields the stripped tree (via C01). Tied to the crate by comparing to_formatted_newick for all nine formats and to_nexus with the model on "
-        "generated trees in four layouts; oracle: parse back and compare with the harness's own strip; Nexus NTAX / TAXLABELS / embedded text.",
+        "generated trees in four layouts; oracle: parse back and compare with the harness's own strip; Nexus NTAX / TAXLABELS / embedded text. Also: NaN lengths, the bottom-up arena layout, objects with a past (caches filled) and Nexus export after an un-reset edit of a queried object.",
    note=NOTE + FLOATTXT, technique="Lean 4 structural-induction proof (format = write of stripped tree) + differential execution of all nine formats", ref="5 C16"),
  "C03": dict(
    text="Kernel-checked theorems, for arenas of any size and histories of any length: EVERY executable operation of the model (add, add_child, "
